@@ -82,7 +82,7 @@ class Comm:
 
 def cases_start(tier):
     for n_eval in (0, 1, 2):
-        for fault in ("none", "evaluator-raises", "child-reports-error"):
+        for fault in ("none", "evaluator-raises", "child-reports-error", "child-reports-empty-error"):
             if fault == "evaluator-raises" and n_eval == 0:
                 continue
             yield "evaluations=%d/%s" % (n_eval, fault), {"n_eval": n_eval, "fault": fault}
@@ -95,8 +95,9 @@ def scn_start(T, case):
     n_eval, fault = case["n_eval"], case["fault"]
     log = []
     script = ["config", "initial_values"] + [{"evaluation": {"variables": [0.5 + k, 1.0], "return_functions": True, "return_gradients": bool(k % 2)}} for k in range(n_eval)]
-    if fault == "child-reports-error":
-        script.append({"error": "bad option"})
+    errmsg = {"child-reports-error": "bad option", "child-reports-empty-error": ""}.get(fault)  # str(exc) of e.g. a bare assert is empty
+    if errmsg is not None:
+        script.append({"error": errmsg})
     # non-determinism of the environment, all explored: after how many polls the child is gone, with which status; write retries; which evaluation raises
     alive = T.choose(len(script) + 3)
     status = (0, 3, -9, -15)[T.choose(4)]  # normal exit, error exit, killed by SIGKILL, killed by SIGTERM (by someone else)
@@ -160,7 +161,7 @@ def scn_start(T, case):
             for k, v in restore[1].items():
                 setattr(restore[0], k, v)
     evaluator_raised = raise_at is not None and len(calls) > raise_at
-    child_error_seen = fault == "child-reports-error" and {"error": "bad option"} not in comm.script and len(comm.script) == 0
+    child_error_seen = errmsg is not None and {"error": errmsg} not in comm.script and len(comm.script) == 0
     # ---- death is never success
     if outcome == "returned":
         T.prove("C20.start.normal_return_implies_child_exited_with_status_zero", status == 0)
